@@ -233,7 +233,7 @@ AddlKindVerdict(tn, v) ==
 
 ItemsRule(node, name) == Count(RuleV(node, name).b)
 
-RECURSIVE Acc(_, _, _, _, _), RefUnion(_, _, _, _, _), ObjProps(_, _, _)
+RECURSIVE Acc(_, _, _, _, _), RefUnion(_, _, _, _, _), ObjProps(_, _, _), APSet(_, _, _)
 \* own properties followed by the inherited ones (allOf, transitively); seenT guards against allOf cycles
 ParentNames(node) == IF ~HasRule(node, "allOf") THEN <<>>
                      ELSE LET rv == RuleV(node, "allOf") IN IF rv.t = "tref" THEN <<rv.s>> ELSE [i \in DOMAIN rv.items |-> rv.items[i].s]
@@ -244,6 +244,13 @@ ObjProps(env, node, seenT) ==
       Flat[k \in 0..Len(ps)] == IF k = 0 THEN <<>> ELSE Flat[k - 1] \o inh[k]
   IN node.props \o Flat[Len(ps)]
 
+\* the additionalProperties rule of an object: its own and the inherited ones (allOf, transitively) - an inherited requirement like
+\* the properties (the library reports differing ones as a conflict: more than one value here is left open)
+APSet(env, node, seenT) ==
+  (IF HasRule(node, "additionalProperties") THEN {RuleV(node, "additionalProperties")} ELSE {})
+  \cup UNION {LET p == ParentNames(node)[i] IN
+              IF p \in seenT \/ ~HasType(env, p) \/ TypeNode(env, p).t # "obj" THEN {} ELSE APSet(env, TypeNode(env, p), seenT \cup {p})
+              : i \in DOMAIN ParentNames(node)}
 \* union of the named user types at one value position; `seen` = types already unfolded at this position (least fixpoint)
 RefUnion(env, names, v, ko, seen) ==
   Or3({IF names[i] \in seen \/ ~HasType(env, names[i]) THEN "reject"
@@ -290,8 +297,9 @@ Acc(env, node, v, ko, seen) ==
                               IF ms # {} THEN (LET vs == {Acc(env, props[i].n, val, ko, {}) : i \in ms} IN
                                                IF Cardinality(vs) = 1 THEN CHOOSE x \in vs : TRUE ELSE "unspec")
                               ELSE IF \E i \in short : KeyMatches(env, props[i].kt, k) = "unspec" THEN "unspec"
-                              ELSE IF ~HasRule(node, "additionalProperties") THEN "reject"
-                              ELSE LET ap == RuleV(node, "additionalProperties") IN
+                              ELSE IF APSet(env, node, {}) = {} THEN "reject"
+                              ELSE IF Cardinality(APSet(env, node, {})) > 1 THEN "unspec"
+                              ELSE LET ap == CHOOSE x \in APSet(env, node, {}) : TRUE IN
                                    CASE ap.t = "bool" -> B3(ap.bv)
                                      [] ap.t = "tref" -> RefUnion(env, <<ap.s>>, val, ko, {})
                                      [] ap.t = "id"   -> AddlKindVerdict(ap.s, val)
